@@ -589,7 +589,11 @@ def run(chk: core.Check):
     chk.rules.append(
         "histories: %d random histories of <= %d calls over 2-4 detectors (all seven kinds, some sharing one cost object) and 1-3 scorers "
         "(12 kinds, some sharing that cost), six datasets (n in 24..36, p in 1..3) reused as the same Python objects, update chunks "
-        "overlapping the remembered data by 0 / 1 / 3 rows, in-place modification + refit of scorer inputs; arrays: float ndarrays passed "
+        "overlapping the remembered data by 0 / 1 / 3 rows, in-place modification + refit of scorer inputs; three of the datasets share "
+        "shape and index and every detector ends with calls on them; CAPA / MVCAPA with one- and two-parameter savings and all penalty "
+        "families; pairs of anomalisers built with one change detector object; pairs of MVCAPA detectors differing only in the saving's "
+        "parameter count. Each history runs in its own forked process and every reference value is computed in a fork of a pristine twin "
+        "forked before the history started (module-level state cannot contaminate the reference); arrays: float ndarrays passed "
         "directly to every scorer kind and to PELT with a fixed-mean multivariate cost. Non-trivial = history with >= 3 compared outputs" % (N, L)
     )
     chk.assumptions += [
